@@ -1,12 +1,41 @@
 import extract
-from rules import c01, common
+import callgraph
+from rules import c01, recursion, common
+
+# entry points whose recursion is driven by user-shaped data (reader, writer, equal?, eval, strip)
+C01_RECURSION_ROOTS = ["sexp_read_op", "sexp_write_op", "sexp_equalp_op", "sexp_eval_op", "sexp_analyze",
+                       "sexp_string_to_number_op", "sexp_strip_synclos", "sexp_load_op", "sexp_compile_op"]
 
 
 def run(res, tier, replay=None):
     prog = extract.load_program("default")
     res.functions = sum(1 for _ in prog.all_funcs())
+    cg = callgraph.CallGraph(prog)
     c01.run_b(prog, res, advisory_filter=c01.scope_filter())
     c01.check_dispatchers(prog, res)
     c01.witnesses_b(prog, res)
+    recursion.run(prog, res, "C01", "C01.f", roots=C01_RECURSION_ROOTS, floor=8, cg=cg)
+    c01.run_a(prog, res)
+    c01.run_d(prog, res)
+    c01.run_g(prog, res)
+    if tier == "thorough":
+        flt = c01.scope_filter()
+        common.thorough_mutations(res, "C01", {
+            "C01.b": lambda p, r: c01.run_b(p, r, advisory_filter=flt, floor=0),
+            "C01.f": lambda p, r: recursion.run(p, r, "C01", "C01.f", roots=C01_RECURSION_ROOTS, floor=0),
+            "C01.g": lambda p, r: c01.run_g(p, r, floor=0),
+            "C01.a": lambda p, r: c01.run_a(p, r),
+            "C01.d": lambda p, r: c01.run_d(p, r),
+        })
     res.assumptions = common.ASSUMPTIONS
-    res.explanation = "C01 structural clauses"
+    res.explanation = (
+        "C01, structural clauses only. (b) kind-set dataflow: every typed access on a parameter of a C primitive "
+        "(opcodes[] functions and sexp_define_foreign registrations; arguments of foreign calls are not checked by the VM) "
+        "or on a value loaded from a user-controlled pair/vector is dominated by tag tests that leave only tags whose type row "
+        "describes the accessed union member; Scope A (violations) = VM primitives and primitives whose registered name is "
+        "exported through R7RS-small library chains (resolved from the .sld graph) + (scheme bytevector); others advisory. "
+        "(f) every direct-recursion cycle reachable from reader/writer/equal?/eval passes through a verified depth-parameter "
+        "bounder or a listed by-construction bounder. (a) every opcode that can be emitted or is exposed by opcodes[] has a VM "
+        "case and the default arm raises. (d) slot getter/setter rows designate sexp fields. (g) saved context state is restored "
+        "on every path. Not decided: index arithmetic in hand-written primitives, VM operand guards (C01.c), reader token "
+        "buffers, stack growth sufficiency, OOM paths.")
